@@ -197,6 +197,61 @@ func c10Inputs(c *core.Ctx) []c10Input {
 			}
 		}
 	}
+	// the short arities (option element dropped) of every mode, entry lists, single entries, options and
+	// acks: every strict prefix (the cut right after a nested header is the interesting one)
+	for i := 0; i < c.N(24, 400); i++ {
+		mode := gen.Modes[i%4]
+		m := gen.GenMsg(r, mode, false, false)
+		m.Opts = &gen.Opts{Absent: true}
+		if len(m.Entries) > 3 {
+			m.Entries = m.Entries[:1+r.Intn(3)]
+		}
+		var enc []byte
+		for try := 0; try < 8; try++ {
+			enc = gen.AltMsg(r, m, true, nil, nil)
+			if len(enc) > 0 && int(enc[0]&0x0f) < map[string]int{"message": 4, "message_ext": 4, "forward": 3, "packed": 3}[mode] {
+				break // the option element was dropped
+			}
+		}
+		if len(enc) > 300 {
+			continue
+		}
+		for p := 0; p < len(enc); p++ {
+			ins = append(ins, c10Input{"prefix:" + mode, enc[:p]})
+		}
+	}
+	for i := 0; i < c.N(8, 150); i++ {
+		es := gen.GenEntries(r, false)
+		if len(es) > 3 {
+			es = es[:1+r.Intn(3)]
+		}
+		if len(es) == 0 {
+			continue
+		}
+		el := gen.EntriesToGo(r, es)
+		if b, obs := marshal(el); strings.HasPrefix(obs, "ok") && len(b) < 300 {
+			for p := 0; p < len(b); p++ {
+				ins = append(ins, c10Input{"prefix:entry_list", b[:p]})
+			}
+		}
+		if b, obs := marshal(el[0]); strings.HasPrefix(obs, "ok") && len(b) < 300 {
+			for p := 0; p < len(b); p++ {
+				ins = append(ins, c10Input{"prefix:entry", b[:p]})
+			}
+		}
+		if o := gen.GenOpts(r); !o.Absent {
+			if b, obs := marshal(o.ToGo()); strings.HasPrefix(obs, "ok") {
+				for p := 0; p < len(b); p++ {
+					ins = append(ins, c10Input{"prefix:options", b[:p]})
+				}
+			}
+		}
+		if b, obs := marshal(protocol.AckMessage{Ack: string(gen.GenBytes(r, false))}); strings.HasPrefix(obs, "ok") && len(b) < 300 {
+			for p := 0; p < len(b); p++ {
+				ins = append(ins, c10Input{"prefix:ack", b[:p]})
+			}
+		}
+	}
 	// packed event streams (back-to-back entries): every truncation, and mutations
 	for i := 0; i < c.N(6, 150); i++ {
 		es := gen.GenEntries(r, false)
